@@ -7,7 +7,9 @@
    Hashes are decimal STRINGS (they exceed 32 bits) and are only compared for (in)equality; hd is the
    same number as a list of 1-character digit strings (TLC cannot index strings).
 
-   kind = "cfg"   {res, o, hash, hd, hmod, fname, h2, h3, f3}
+   every record: res ("ok" | "raise:<exception class>@<stage>"), bad (names of values whose Python type was
+   not the expected scalar type; non-empty => clause wrong_type), d (the requested config, for replay).
+   kind = "cfg"   {res, o, hash, hd, hneg, hmod, fname, h2, h3, f3}
                   one config: stable_hash_cfg(), to_fname(); h2 = hash asked a second time, h3 / f3 =
                   hash / file name of an independently constructed equal config
    kind = "rt"    {res, path, o, b, same_fn, lib_eq, ho, hb, fo, fb, ser}
@@ -70,26 +72,31 @@ RtClauses(r) ==
            THEN Flag(CfgEq(Load(r.ser), b), "M:load_differs_from_model")
            ELSE {"M:ser_differs_from_model"})
 
+\* hd = digits of |hash|; for a negative hash the mathematical residue is meant (Python's %)
+HMod(r) == IF r.hneg THEN (100000 - Last5(r.hd)) % 100000 ELSE Last5(r.hd)
 CfgClauses(r) ==
   LET o == r.o IN
   IF o.ctor \notin Generators THEN {"H:unknown_generator"} ELSE
-     Flag(r.fname \in Fnames(o.name, o.grid_n, o.n_mazes, o.ctor, r.hd), "fname_format")
-     \cup Flag(r.hmod = Last5(r.hd), "H:hmod_inconsistent")
+     Flag(r.fname \in Fnames(o.name, o.grid_n, o.n_mazes, o.ctor, HMod(r)), "fname_format")
+     \cup Flag(r.hmod = HMod(r), "H:hmod_inconsistent")
      \cup Flag(r.h2 = r.hash /\ r.h3 = r.hash, "hash_not_repeatable")
      \cup Flag(r.f3 = r.fname, "fname_not_repeatable")
 
-PairsOf(n) == {p \in (1..n) \X (1..n) : p[1] < p[2]}
+AllPairs(n, P(_, _)) == \A a \in 1..n : \A b \in (a + 1)..n : P(a, b)
 LineClauses(r) ==
-  LET n == Len(r.cfgs) IN
-  Flag(Len(r.hashes) = n /\ r.field \in Fields
-       /\ \A p \in PairsOf(n) : DiffFields(r.cfgs[p[1]], r.cfgs[p[2]]) = {r.field}, "H:line_malformed")
-  \cup Flag(\A p \in PairsOf(n) : r.hashes[p[1]] # r.hashes[p[2]], "hash_collision:" \o r.field)
+  LET n == Len(r.cfgs)
+      OneField(a, b) == DiffFields(r.cfgs[a], r.cfgs[b]) = {r.field}
+      Distinct(a, b) == r.hashes[a] # r.hashes[b] IN
+  Flag(Len(r.hashes) = n /\ r.field \in Fields /\ AllPairs(n, OneField), "H:line_malformed")
+  \cup Flag(AllPairs(n, Distinct), "hash_collision:" \o r.field)
 
+\* all pairs of a family; the common case (all hashes distinct) is decided by one set cardinality
 FamClauses(r) ==
   LET n == Len(r.cfgs)
-      key == [k \in 1..n |-> HashKey(r.cfgs[k])] IN
-  Flag(\A p \in PairsOf(n) : ~CfgEq(r.cfgs[p[1]], r.cfgs[p[2]]) => r.hashes[p[1]] # r.hashes[p[2]], "hash_collision")
-  \cup Flag(\A p \in PairsOf(n) : key[p[1]] = key[p[2]] => r.hashes[p[1]] = r.hashes[p[2]], "equal_configs_hash_differently")
+      key == [k \in 1..n |-> HashKey(r.cfgs[k])]
+      Separated(a, b) == r.hashes[a] = r.hashes[b] => CfgEq(r.cfgs[a], r.cfgs[b]) IN
+  Flag(Cardinality({r.hashes[k] : k \in 1..n}) = n \/ AllPairs(n, Separated), "hash_collision")
+  \cup Flag(Cardinality({<<key[k], r.hashes[k]>> : k \in 1..n}) = Cardinality({key[k] : k \in 1..n}), "equal_configs_hash_differently")
 
 ProcClauses(r) ==
   Flag(\A k \in 1..Len(r.obs) : r.obs[k].res = "ok", "unexpected_exception")
@@ -99,6 +106,7 @@ ProcClauses(r) ==
 
 Clauses(r) ==
   IF r.res # "ok" THEN {"unexpected_exception"}
+  ELSE IF Len(r.bad) > 0 THEN {"wrong_type"}
   ELSE CASE r.kind = "rt"   -> RtClauses(r)
          [] r.kind = "cfg"  -> CfgClauses(r)
          [] r.kind = "line" -> LineClauses(r)
